@@ -169,7 +169,7 @@ def gen_pos_index(rng, n):
         return {"k": "r", "v": [a, rng.randint(a, n)] + ([2] if rng.random() < 0.3 else [])}
     if r < 0.5:
         m = rng.randint(0, 3) if n <= 6 or rng.random() < 0.6 else rng.randint(4, n)
-        return {"k": "l", "v": [rng.randint(-n, n - 1) for _ in range(m)]}
+        return {"k": "l" if rng.random() < 0.7 or m == 0 else "a", "v": [rng.randint(-n, n - 1) for _ in range(m)]}
     if r < 0.62:
         return {"k": "m" if rng.random() < 0.8 else "ml", "v": [rng.random() < 0.5 for _ in range(n)]}
     if r < 0.88:
